@@ -3,7 +3,7 @@
 TIER="$1"; shift
 cd /verif
 for S in "$@"; do
-  for P in $(python3 -c "import sys; sys.path.insert(0,'bin'); import checks; print(' '.join(sorted(checks.PROPS)))"); do
+  for P in ${SOAK_PROPS:-$(python3 -c "import sys; sys.path.insert(0,'bin'); import checks; print(' '.join(sorted(checks.PROPS)))")}; do
     T0=$(date +%s)
     VERIF_SEED=$S VERIF_RUNTAG=soak bin/vcheck $P --tier $TIER > .run/soak_$P.log 2>&1; RC=$?
     T1=$(date +%s)
